@@ -83,8 +83,68 @@ impl Ctx {
         (outcome(&r).to_string(), same)
     }
 
+    /// sibling member names (CJson.tla, member order): the reference renderer must write them in the
+    /// order TLC computed, and the library must sign exactly those bytes
+    fn run_order(&mut self, scn: &Value) -> Value {
+        let reps = std::env::var("ITV_REPS").ok().and_then(|s| s.parse().ok()).unwrap_or(3);
+        let mut outs = vec![];
+        let mut same_all = true;
+        let mut order_ok = true;
+        let mut sample = String::new();
+        for _ in 0..reps {
+            // one member per order class, the same for every name of the scenario
+            let pick = |rng: &mut rand::rngs::StdRng, m: &[u32]| char::from_u32(m[rng.gen_range(0..m.len())]).unwrap();
+            let a = pick(&mut self.rng, &[0x21, 0x2d, 0x41, 0x5f, 0x6b, 0x7e]);
+            let u = pick(&mut self.rng, &[0x80, 0xe9, 0x7ff, 0x800, 0x4e2d, 0xd7ff]);
+            let h = pick(&mut self.rng, &[0xe000, 0xf8ff, 0xff21, 0xfffd, 0xffff]);
+            let sp = pick(&mut self.rng, &[0x10000, 0x1f600, 0x10ffff]);
+            let conc = |name: &Value| -> String {
+                name.as_array().unwrap().iter().map(|c| match c.as_str().unwrap() {
+                    "A" => a,
+                    "D" => '\u{7f}',
+                    "U" => u,
+                    "H" => h,
+                    "S" => sp,
+                    o => panic!("order class {o}"),
+                }).collect()
+            };
+            let names: Vec<String> = scn["s"].as_array().unwrap().iter().map(conc).collect();
+            let want: Vec<String> = scn["ref"].as_array().unwrap().iter().map(conc).collect();
+            let mut env = BTreeMap::new();
+            let mut prods = artifacts(&json!([]));
+            let mut byp = ByProducts::new().set_return_value(0).set_stdout(String::new()).set_stderr(String::new());
+            for n in &names {
+                env.insert(format!("k{n}"), "v".to_string());
+                prods.insert(VirtualTargetPath::new(format!("d/{n}")).unwrap(), target("h1"));
+                byp = byp.set_other_field(format!("x{n}"), "o".to_string());
+            }
+            let meta = MetadataWrapper::Link(
+                LinkMetadataBuilder::new().name("step".to_string()).products(prods).byproducts(byp).command(Command::from("tool")).env(Some(env)).build().unwrap(),
+            );
+            // binding to the specification: the reference renderer writes the members in TLC's order
+            let signed = serde_json::to_value(&meta).unwrap();
+            let text = String::from_utf8(olpc_bytes(&signed)).unwrap();
+            for (pre, post) in [("\"k", "\":\"v\""), ("\"d/", "\":{"), ("\"x", "\":\"o\"")] {
+                let pos: Vec<Option<usize>> = want.iter().map(|n| text.find(&format!("{pre}{n}{post}"))).collect();
+                if pos.iter().any(|p| p.is_none()) || pos.windows(2).any(|w| w[0] >= w[1]) {
+                    order_ok = false;
+                }
+            }
+            let (o, same) = self.check_doc(&meta);
+            if !outs.contains(&o) {
+                outs.push(o);
+            }
+            same_all &= same;
+            sample = names.join(" | ");
+        }
+        json!({"outs": outs, "same_sig": same_all, "atoms_ok": order_ok, "sample": sample})
+    }
+
     pub fn run(&mut self, scn: &Value) -> Value {
         let field = scn["field"].as_str().unwrap();
+        if field == "order" {
+            return self.run_order(scn);
+        }
         let mut outs = vec![];
         let mut same_all = true;
         let mut atoms_ok = true;
